@@ -94,8 +94,17 @@ def build(transport):
                 kw['http'] = ('post', f'/v1/do/{i}/{form}', '*')
             meths.append(method(rpc, rq_type, out_t, **kw))
             cells.append(dict(id=f'{form}/{kname}', rpc=rpc, form=form, kit=kname, req=rq_type, resp=out_t))
+    # a second service on another host: its region tags carry *its* host short name
+    other = []
+    for form in ('unary', 'void', 'server-stream'):
+        rpc = 'Other' + ''.join(w.capitalize() for w in form.split('-'))
+        other.append(method(rpc, Q('Rq1'), EMPTY if form == 'void' else Q('Resp'), ss=form == 'server-stream',
+                            http=('post', f'/v1/other/{form}', '*')))
+        cells.append(dict(id=f'{form}/second-service', rpc=rpc, form=form, kit='none', req=Q('Rq1'),
+                          resp=EMPTY if form == 'void' else Q('Resp'), service='Other', shortname='otherhost'))
     main = file('acme/smp/v1/samples.proto', P, messages=msgs, enums=[enum('Tone', 'TONE_UNSPECIFIED', 'LOUD', 'QUIET')],
-                services=[service('Smp', meths, host='smpapi.googleapis.com:443')])
+                services=[service('Smp', meths, host='smpapi.googleapis.com:443'),
+                          service('Other', other, host='otherhost.example.com')])
     std = desc.std_dep_names()
     dep.dependency.extend(std)
     main.dependency.extend(std + [dep.name])
